@@ -71,6 +71,14 @@ func NewSched(stream *Stream, keepTrace int) *Sched {
 	return s
 }
 
+// SetPolicy overrides the drawn policy (engines whose parked goroutines share
+// one task name need the uniform policy to get any diversity).
+func (s *Sched) SetPolicy(p int) {
+	s.mu.Lock()
+	s.policy = p
+	s.mu.Unlock()
+}
+
 func (s *Sched) PolicyName() string {
 	return [...]string{"budget", "uniform", "stall", "prio"}[s.policy]
 }
